@@ -449,6 +449,19 @@ def context_targets(ctx, rng):
                                 ctx.violation("position", "context-target:dereference-moves-the-stream",
                                               dict(detail, struct=name))
                                 break
+                            # the result of pointer arithmetic is a pointer like the original: same stream, same
+                            # context (the target one element further on parses with the same count)
+                            try:
+                                moved = [list((pp + 2).dereference()), list((pp | 0).dereference()),
+                                         list(((pp + 4) - 2).dereference())]
+                            except Exception as e:  # noqa: BLE001
+                                ctx.violation("deref", f"context-target:dereference-after-arithmetic-fails:{type(e).__name__}",
+                                              dict(detail, struct=name, count=count, error=lib.exc_sig(e)))
+                                break
+                            if moved != [vals[k][1:1 + count], vals[k][:count], vals[k][1:1 + count]]:
+                                ctx.violation("deref", "context-target:dereference-after-arithmetic-differs",
+                                              dict(detail, struct=name, got=moved))
+                                break
                         else:
                             ctx.event("context_target_checked")
                     except Exception as e:  # noqa: BLE001
@@ -456,7 +469,42 @@ def context_targets(ctx, rng):
                                       dict(detail, struct=name, count=count, error=lib.exc_sig(e)))
 
 
+def union_pointers(ctx):
+    """Pinned witness of the open finding K11: a pointer that is a member of a fixed-size union (directly or in a
+    nested structure) dereferences at the absolute stream offset like any other pointer."""
+    import io
+
+    for compiled in (True, False):
+        for endian in "<>":
+            text = ("struct inn { uint8 *q; uint8 t; };\nunion u { uint8 *p; uint32 raw; inn s; };\n"
+                    "struct outer { uint8 pad[4]; u un; };")
+            ctx.evaluation(("union-pointers", compiled, endian))
+            ctx.cell("union-pointers")
+            det = {"text": text, "compiled": compiled, "endian": endian, "workload": "union-pointers"}
+            try:
+                cs = lib.cstruct(endian=endian, pointer="uint8")
+                cs.load(text, compiled=compiled)
+                data = b"\x99\x98\x97\x96" + b"\x02\x00\x11\x22" + b"\xaa\xbb"
+                o = cs.outer(io.BytesIO(data))
+                got = []
+                for ptr in (o.un.p, o.un.s.q):
+                    try:
+                        got.append(int(ptr.dereference()))
+                    except Exception as e:  # noqa: BLE001
+                        got.append(type(e).__name__)
+            except Exception as e:  # noqa: BLE001
+                ctx.violation("union-pointers", f"pointer-in-union-raises:{type(e).__name__}", dict(det, error=lib.exc_sig(e)))
+                continue
+            if got != [0x97, 0x97]:
+                ctx.violation("union-pointers", "K11:pointer-inside-a-fixed-size-union-dereferences-into-the-unions-private-buffer",
+                              dict(det, got=repr(got), want="[0x97, 0x97] (absolute offset 2 of the stream)"))
+            else:
+                ctx.event("union_pointers_absolute")
+
+
 def run(ctx):
+    if ctx.shard == 0:
+        union_pointers(ctx)
     if ctx.shard % 8 == 1:
         reconfigured_width(ctx, ctx.rng("reconfigured"))
     if ctx.shard % 8 == 2:
@@ -479,6 +527,9 @@ def replay(ctx, detail):
 
     print("definition:\n" + detail.get("text", ""))
     print({k: v for k, v in detail.items() if k not in ("ast", "text")})
+    if detail.get("workload") == "union-pointers":
+        union_pointers(ctx)
+        return
     if detail.get("workload") == "reconfigured-width":
         reconfigured_width(ctx, random.Random(0))
         return
